@@ -86,6 +86,44 @@ func (e *Engine) initExterns() {
 			return nil
 		})
 	}
+	// sync.Once: Do(f) runs f the first time it is called on that Once and never again. Ghost
+	// heap once$done maps the Once object to "already used"; the function value is inlined
+	// under "not yet used" and the two outcomes are merged.
+	e.externs["(*sync.Once).Do"] = &externHandler{note: "sync.Once.Do runs its function exactly the first time (ghost flag per Once object)",
+		mods: func(c *FnCtx, cc *ssa.CallCommon, ms *loopModSet) { ms.all = true },
+		fn: func(c *FnCtx, st *State, args []SV, rt types.Type) SV {
+			c.trusted["sync.Once.Do runs its function exactly the first time it is called on that Once (ghost flag per Once object)"] = true
+			var heap string
+			var idx Term
+			switch o := args[0].(type) {
+			case Sc:
+				heap, idx = "ghost$once$done", o.T
+			case Ad:
+				if o.Loc != nil {
+					heap, idx = "ghost$once$done", c.subRef(o.Loc)
+				}
+			}
+			fnv, ok := args[1].(Fn)
+			if heap == "" || !ok || fnv.F == nil || c.curFrame == nil {
+				c.abstract("sync.Once.Do on an unsupported receiver / function value: all heaps havocked")
+				ms := newModSet()
+				ms.all = true
+				c.havoc(st, c.curFrame, ms, "sync.Once.Do")
+				return nil
+			}
+			h := c.heapGet(st, heap, SArr(SInt, SBool))
+			done := c.vc.Name("oncedone", Select(h, idx, SBool))
+			run := st.clone()
+			run.pc = c.vc.Name("pc", And(st.pc, Not(done)))
+			c.inline(c.curFrame, run, fnv.F, nil, fnv.Free)
+			hr := c.heapGet(run, heap, SArr(SInt, SBool))
+			c.heapSet(run, heap, c.vc.Name("h", Store(hr, idx, TTrue)))
+			skip := st.clone()
+			skip.pc = c.vc.Name("pc", And(st.pc, done))
+			m := c.mergeStates([]edgeState{{run, run.pc}, {skip, skip.pc}})
+			*st = *m
+			return nil
+		}}
 	reg("fmt.Errorf", "returns a non-nil error", func(c *FnCtx, st *State, args []SV, rt types.Type) SV {
 		c.trusted["fmt.Errorf / errors.New return a non-nil error"] = true
 		return nonNilError(c, "Errorf")
